@@ -79,13 +79,14 @@ Definition switch_off (n : nat) (cfg : deviations) : deviations :=
      d_alias_abort := if Nat.eqb n 120 then false else d_alias_abort cfg;
      d_start_order := if Nat.eqb n 121 then false else d_start_order cfg;
      d_pending_zombie := if Nat.eqb n 122 then false else d_pending_zombie cfg;
-     d_limit_kw := if Nat.eqb n 123 then false else d_limit_kw cfg |}.
+     d_limit_kw := if Nat.eqb n 123 then false else d_limit_kw cfg;
+     d_rt_owner := if Nat.eqb n 124 then false else d_rt_owner cfg |}.
 Definition switch_on (n : nat) (cfg : deviations) : bool :=
   match n with
   | 21 => d_stale_handler cfg | 23 => d_no_alias cfg | 26 => d_dup_set cfg | 120 => d_alias_abort cfg
-  | 121 => d_start_order cfg | 122 => d_pending_zombie cfg | 123 => d_limit_kw cfg | _ => false
+  | 121 => d_start_order cfg | 122 => d_pending_zombie cfg | 123 => d_limit_kw cfg | 124 => d_rt_owner cfg | _ => false
   end.
-Definition life_switches : list nat := [21; 23; 26; 120; 121; 122]%nat.
+Definition life_switches : list nat := [21; 23; 26; 120; 121; 122; 124]%nat.
 
 (* a finding explains the failure iff its switch is on and switching it off changes what the Model predicts on this
    case; if no single switch matters but the conformant Model differs, all switches that are on are named *)
@@ -112,9 +113,14 @@ Definition lcase_explain (cfg : deviations) (c : lcase) :=
 From PV Require Import Life.ServiceCalls.
 
 Record ocase := mk_ocase {
-  oc_site : site; oc_task_ctx : bool; oc_target : srm; oc_nargs : N; oc_nparams : N; oc_kws : list kwarg;
+  oc_site : site; oc_task_ctx : bool;
+  oc_target : srm;                               (* how HA's async_call validates calls of the target (`is` tests) *)
+  oc_honly : bool;                               (* supports_response(target) == ONLY *)
+  oc_decl_only : bool;                           (* the target was declared with supports_response only *)
+  oc_nargs : N; oc_nparams : N; oc_kws : list kwarg;
   oc_res : oresult;                              (* observed at the target service / as exception in the script *)
-  oc_passed : option (bool * bool * bool)        (* observed at hass.services.async_call: context given, blocking, return_response *)
+  oc_passed : option (bool * bool * bool);       (* observed at hass.services.async_call: context given, blocking, return_response *)
+  oc_ret : option bool                           (* what the calling script got: Some true = the target's response, Some false = None, None = exception *)
 }.
 
 Definition kwarg_eqb (a b : kwarg) : bool :=
@@ -129,7 +135,7 @@ Definition oresult_eqb (a b : oresult) : bool :=
 (* the control arguments the Model hands to async_call (None: the call raises before reaching it) *)
 Definition model_passed (c : ocase) : option (bool * bool * bool) :=
   let '(_, h) := split (oc_site c) (oc_task_ctx c) (oc_kws c) in
-  let h := match oc_site c with SiteEntity => if entity_via_helper then helper (oc_target c) h else h | _ => helper (oc_target c) h end in
+  let h := match oc_site c with SiteEntity => if entity_via_helper then helper (oc_honly c) h else h | _ => helper (oc_honly c) h end in
   if args_misuse (oc_site c) (oc_nargs c) (oc_nparams c) then None
   else Some (match harg_find 1 h with Some _ => true | None => false end, harg_true (harg_find 2 h), harg_true (harg_find 3 h)).
 
@@ -137,15 +143,24 @@ Definition passed_eqb (a b : option (bool * bool * bool)) : bool :=
   option_eqb (fun '(x, y, z) '(x', y', z') => Bool.eqb x x' && Bool.eqb y y' && Bool.eqb z z') a b.
 
 Definition ocase_run (cfg : deviations) (c : ocase) : oresult :=
-  outgoing cfg (oc_site c) (oc_task_ctx c) (oc_target c) (oc_nargs c) (oc_nparams c) (oc_kws c).
+  outgoing cfg (oc_site c) (oc_task_ctx c) (oc_target c) (oc_honly c) (oc_nargs c) (oc_nparams c) (oc_kws c).
 
 Definition ocase_model_ok (cfg : deviations) (c : ocase) : bool :=
-  oresult_eqb (ocase_run cfg c) (oc_res c) && passed_eqb (model_passed c) (oc_passed c).
+  oresult_eqb (ocase_run cfg c) (oc_res c) && passed_eqb (model_passed c) (oc_passed c)
+  && option_eqb Bool.eqb (script_ret (ocase_run cfg c)) (oc_ret c).
 
+(* "returns its result when a response is supported": the script asked for it (recognised return_response=True), or the
+   target is response-only and the script did not say otherwise (service.call / d.s() forms) *)
+Definition wants_response (c : ocase) : bool :=
+  match kw_find 3%N (oc_kws c) with
+  | Some x => recognised (oc_site c) x && negb (Z.eqb (kw_val x) 0)
+  | None => oc_decl_only c && match oc_site c with SiteEntity => false | _ => true end
+  end.
 Definition ocase_spec_ok (c : ocase) : bool :=
   match oc_res c with
   | ODelivered d _ => list_eqb kwarg_eqb d (expected_data (oc_site c) (oc_nargs c) (oc_nparams c) (oc_kws c))
-  | OValidation => direct_rejects (oc_site c) (oc_target c) (oc_kws c)
+                      && (if wants_response c then option_eqb Bool.eqb (oc_ret c) (Some true) else true)
+  | OValidation => direct_rejects (oc_site c) (if oc_decl_only c then SrOnly else oc_target c) (oc_kws c)   (* judged by the declared mode *)
   | OTypeError => args_misuse (oc_site c) (oc_nargs c) (oc_nparams c)
   | OOther => false
   end.
